@@ -296,6 +296,37 @@ cJSON_bool cJSON_InsertItemInArray(cJSON *array, int which, cJSON *newitem)
     return 1;
 }
 /* SHP1: tail link not restored when the last of exactly two elements is removed */
+/* SHP4: a duplicator that leaves the text of raw nodes out; and one that copies every kind */
+static unsigned char *fx_strdup(const unsigned char *s) { size_t n = strlen((const char*)s) + 1; unsigned char *c = (unsigned char*)global_hooks.allocate(n); if (c) { memcpy(c, s, n); } return c; }
+#define FX_DUP(NAME, TEXT_OF) \
+cJSON *NAME(const cJSON *item, cJSON_bool recurse) \
+{ \
+    cJSON *copy = NULL; const cJSON *child = NULL; cJSON *tail = NULL; const char *text = NULL; \
+    if (item == NULL) { return NULL; } \
+    copy = cJSON_New_Item(&global_hooks); \
+    if (copy == NULL) { return NULL; } \
+    copy->type = item->type & (~cJSON_IsReference); \
+    copy->valueint = item->valueint; \
+    copy->valuedouble = item->valuedouble; \
+    text = TEXT_OF; \
+    if (text != NULL) { copy->valuestring = (char*)cJSON_strdup((const unsigned char*)text, &global_hooks); if (copy->valuestring == NULL) { goto fail; } } \
+    if (item->string != NULL) { copy->string = (char*)cJSON_strdup((const unsigned char*)item->string, &global_hooks); if (copy->string == NULL) { goto fail; } copy->type &= ~cJSON_StringIsConst; } \
+    if (!recurse) { return copy; } \
+    for (child = item->child; child != NULL; child = child->next) \
+    { \
+        cJSON *c2 = NAME(child, 1); \
+        if (c2 == NULL) { goto fail; } \
+        if (tail == NULL) { copy->child = c2; } else { tail->next = c2; c2->prev = tail; } \
+        tail = c2; \
+    } \
+    if (copy->child != NULL) { copy->child->prev = tail; } \
+    return copy; \
+fail: \
+    cJSON_Delete(copy); \
+    return NULL; \
+}
+FX_DUP(bad_SHP4_dup_strings_only, (((item->type & 0xFF) == cJSON_String) ? item->valuestring : NULL))
+FX_DUP(good_dup_every_kind, item->valuestring)
 /* SHP3: queries against the list model */
 cJSON *bad_SHP3_item_at(const cJSON *array, size_t index)
 {
